@@ -31,7 +31,16 @@ class _KeyPolicy(Policy):
 
     def inline(self, fn, args, interp, path):
         b = interp.callee_body(fn)
-        return b is not None and len(b["blocks"]) <= 12
+        if b is None:
+            return False
+        if len(b["blocks"]) <= 12:
+            return True
+        # the key computation may live in private functions next to the ordering function (handed the operators / nodes)
+        root = path.frames[0].body["path"] if path.frames else ""
+        mod = re.sub(r"(::\{closure#\d+\})+$", "", root).rsplit("::", 1)[0]
+        tys = " ".join(b["locals"][i]["ty"] for i in range(1, b["arg_count"] + 1))
+        return b["kind"] == "Fn" and b["path"].startswith(mod + "::") and len(b["blocks"]) <= 120 and not b.get("public") and \
+            ("FlatOp<" in tys or "BinOpWithIdx<" in tys or "BinOpsWithReprs<" in tys)
 
 
 def ordering_functions(fb):
